@@ -179,3 +179,78 @@ pub fn tt_inserted(
         running,
     });
 }
+
+// ---------------------------------------------------------------------------
+// Search audit: assertions on the positions the search itself visits
+// ---------------------------------------------------------------------------
+
+/// What the audit saw while it was switched on.
+#[derive(Clone, Debug, Default)]
+pub struct SearchAudit {
+    /// moves made by the search that were looked at
+    pub moves: u64,
+    /// ... of which the mover's own king was left attacked (an illegal move was searched)
+    pub illegal_moves: u64,
+    pub first_illegal: Option<String>,
+    /// nodes handed to the capture search by the full-width search
+    pub horizons: u64,
+    /// ... of which the side to move was in check (the check extension did not happen)
+    pub horizons_in_check: u64,
+    pub first_horizon_in_check: Option<String>,
+}
+
+static AUDIT_ON: AtomicBool = AtomicBool::new(false);
+static AUDIT: Mutex<Option<SearchAudit>> = Mutex::new(None);
+
+#[allow(dead_code)]
+pub fn audit_start() {
+    *AUDIT.lock().unwrap_or_else(std::sync::PoisonError::into_inner) = Some(SearchAudit::default());
+    AUDIT_ON.store(true, Ordering::Relaxed);
+}
+
+#[allow(dead_code)]
+pub fn audit_take() -> SearchAudit {
+    AUDIT_ON.store(false, Ordering::Relaxed);
+    AUDIT
+        .lock()
+        .unwrap_or_else(std::sync::PoisonError::into_inner)
+        .take()
+        .unwrap_or_default()
+}
+
+/// Called by the search right after it has made `mv` on `board`.
+pub fn audit_move(board: &crate::board::Board, mv: &crate::board::Ply) {
+    if !AUDIT_ON.load(Ordering::Relaxed) {
+        return;
+    }
+    let mover = board.current_turn.opposite();
+    let illegal = board.is_in_check(mover);
+    let mut guard = AUDIT.lock().unwrap_or_else(std::sync::PoisonError::into_inner);
+    if let Some(a) = guard.as_mut() {
+        a.moves += 1;
+        if illegal {
+            a.illegal_moves += 1;
+            if a.first_illegal.is_none() {
+                a.first_illegal = Some(format!("after {mv} (key {}):\n{board}", board.zkey));
+            }
+        }
+    }
+}
+
+/// Called by the full-width search when it hands a node to the capture search.
+pub fn audit_horizon(board: &crate::board::Board) {
+    if !AUDIT_ON.load(Ordering::Relaxed) {
+        return;
+    }
+    let in_check = board.is_in_check(board.current_turn);
+    let mut guard = AUDIT.lock().unwrap_or_else(std::sync::PoisonError::into_inner);
+    if let Some(a) = guard.as_mut() {
+        a.horizons += 1;
+        if in_check {
+            a.horizons_in_check += 1;
+            if a.first_horizon_in_check.is_none() {
+                a.first_horizon_in_check = Some(format!("{} to move (key {}):\n{board}", board.current_turn, board.zkey));
+            }
+        }
+    }
+}
